@@ -4,6 +4,9 @@
 -/
 import PV.Model.Cov
 import PV.Props.C06Alg
+import PV.Proofs.RealScalar
+import Mathlib.Tactic.Ring
+import Mathlib.Tactic.FieldSimp
 
 namespace PV
 open Scalar
@@ -16,5 +19,60 @@ theorem c06_disjoint_zero (o1 o2 : Obs α)
     covElement o1 o2 = 0 := by
   unfold covElement
   simp only [h, Bool.not_false, ↓reduceIte]
+
+
+/-! ### the assembled matrix of the executable model -/
+
+section assembled
+open PV.RealS
+set_option linter.unusedSimpArgs false
+
+theorem covMatrix_entry (obs : List (Obs ℝ)) (dv : List ℝ) (correlation : Bool) (i j : Nat)
+    (hi : i < obs.length) (hj : j < obs.length) :
+    ((covarianceMatrix obs dv correlation).getD i []).getD j 0 =
+      (let el := fun (a b : Nat) => covElement (obs.getD (min a b) default) (obs.getD (max a b) default)
+       let c := el i j / Transc.sqrt (el i i) / Transc.sqrt (el j j)
+       if correlation then c else dv.getD i 0 * c * dv.getD j 0) := by
+  unfold covarianceMatrix
+  simp [List.getD_eq_getElem?_getD, List.getElem?_map, List.getElem?_range, hi, hj]
+
+/-- **C06 (the assembled matrix is symmetric).**  For every list of observables, every error vector and both
+    normalisations, entry (i, j) of the model of `covariance` equals entry (j, i): the element is computed from
+    the unordered pair and the normalisation commutes. -/
+theorem c06_model_symmetric (obs : List (Obs ℝ)) (dv : List ℝ) (correlation : Bool) (i j : Nat)
+    (hi : i < obs.length) (hj : j < obs.length) :
+    ((covarianceMatrix obs dv correlation).getD i []).getD j 0
+      = ((covarianceMatrix obs dv correlation).getD j []).getD i 0 := by
+  rw [covMatrix_entry obs dv correlation i j hi hj, covMatrix_entry obs dv correlation j i hj hi]
+  simp only [Nat.min_comm j i, Nat.max_comm j i]
+  cases correlation
+  · simp only [Bool.false_eq_true, if_false]
+    ring
+  · simp only [if_true]
+    ring
+
+/-- **C06 (unit diagonal of the correlation matrix, diagonal = squared errors of the covariance matrix).**
+    Whenever the self-covariance of observable i is positive, the correlation entry (i, i) is 1 and the
+    covariance entry is `dvalue_i²`. -/
+theorem c06_model_diagonal (obs : List (Obs ℝ)) (dv : List ℝ) (i : Nat) (hi : i < obs.length)
+    (hpos : 0 < covElement (obs.getD i default) (obs.getD i default)) :
+    ((covarianceMatrix obs dv true).getD i []).getD i 0 = 1 ∧
+    ((covarianceMatrix obs dv false).getD i []).getD i 0 = dv.getD i 0 * dv.getD i 0 := by
+  have hs : Real.sqrt (covElement (obs.getD i default) (obs.getD i default)) ≠ 0 :=
+    (Real.sqrt_pos.mpr hpos).ne'
+  have hsq : Real.sqrt (covElement (obs.getD i default) (obs.getD i default)) * Real.sqrt (covElement (obs.getD i default) (obs.getD i default))
+      = covElement (obs.getD i default) (obs.getD i default) := Real.mul_self_sqrt hpos.le
+  constructor
+  · rw [covMatrix_entry obs dv true i i hi hi]
+    simp only [Nat.min_self, Nat.max_self, if_true]
+    show covElement _ _ / Real.sqrt _ / Real.sqrt _ = 1
+    rw [div_div, hsq, div_self hpos.ne']
+  · rw [covMatrix_entry obs dv false i i hi hi]
+    simp only [Nat.min_self, Nat.max_self, Bool.false_eq_true, if_false]
+    show dv.getD i 0 * (covElement _ _ / Real.sqrt _ / Real.sqrt _) * dv.getD i 0 = _
+    rw [div_div, hsq, div_self hpos.ne']
+    ring
+
+end assembled
 
 end PV
